@@ -170,6 +170,8 @@ static rfbBool HandleTRLE(rfbClient *client, int rx, int ry, int rw, int rh) {
         int i = 0, j = 0;
         while (j < h) {
 	  int color, length, buffer_pos = 0;
+          /* every run is read to the start of raw_buffer: buffer_pos bounds the writes */
+          buffer = (uint8_t*)(client->raw_buffer);
           /* read color */
           if (!ReadFromRFBServer(client, (char*)buffer, REALBPP / 8 + 1))
             return FALSE;
@@ -212,6 +214,8 @@ static rfbBool HandleTRLE(rfbClient *client, int rx, int ry, int rw, int rh) {
         i = j = 0;
         while (j < h) {
 	  int color, length, buffer_pos = 0;
+          /* every run is read to the start of raw_buffer: buffer_pos bounds the writes */
+          buffer = (uint8_t*)(client->raw_buffer);
           /* read color */
           if (!ReadFromRFBServer(client, (char *)buffer, 1))
             return FALSE;
